@@ -82,7 +82,7 @@ def _decimal_prices(df):
 
 
 # ---------------------------------------------------------------------------------------------------------
-def uni_world(orient="q0", frozen_bar=1, closes=(200000, 200013, 199991), fee_vol=(5 * 10**9, 2 * 10**18)):
+def uni_world(orient="q0", frozen_bar=1, closes=(200000, 200013, 199991), fee_vol=(5 * 10**9, 2 * 10**18), late_price=False):
     if orient == "q0":
         pool = uni.pool_q0()
         ticks = list(closes)
@@ -97,6 +97,11 @@ def uni_world(orient="q0", frozen_bar=1, closes=(200000, 200013, 199991), fee_vo
     data = uni.prepared(raw, pool)
     price_df, quote = get_price_from_data(data, pool)
     prices = _decimal_prices(price_df)
+    if late_price:
+        # the price table also quotes a token that was listed two bars into the history (nobody holds it): no price before that
+        lp = [Decimal("nan")] * 2 + [Decimal(5 + i) for i in range(len(prices.index) - 2)]
+        prices.insert(0, "LATE", lp)
+        prices = _raw("prices.raw", prices)
 
     def build():
         m = uni.make_market(pool, data, "uni")
@@ -240,7 +245,9 @@ def deribit_world(frozen_bar=1, cut_from=None):
 def gmx1_world(frozen_bar=1, usdg_class=None, n=3):
     from . import gmx
 
-    data = _raw("gmx1.raw", gmx.v1_frame(n, usdg_class))
+    frame = gmx.v1_frame(n, usdg_class)
+    frame["link_usdg"] = [float("nan")] + [10**24] * (n - 1)  # a token that joined the basket after the history begins: an empty cell in the supplied frame
+    data = _raw("gmx1.raw", frame)
     prices = gmx.v1_prices(data)
 
     def build():
